@@ -307,3 +307,6 @@ M("C01", "equi-arctan-args", FORMS, "        ω = (arctan2(ey, ex) - Ω) % (2 * 
 M("C01", "circ-anomaly", FORMS, "        ω = arctan2(ey / e, ex / e)\n        ν = u - ω", "        ω = arctan2(ey / e, ex / e)\n        ν = u + ω", "R01.10")
 M("C01", "equi-encoder", FORMS, "        iy = tan(i / 2) * sin(Ω)", "        iy = tan(i / 2) * sin(ω)", "R01.10")
 R("C01", "refactor-kep2cart", FORMS, "        z = r * sin(i) * sin(ω + ν)", "        u_ = ω + ν\n        z = sin(u_) * r * sin(i)")
+
+M("C02", "precession-coefficient", I80, "    zeta = (2306.2181 * t + 0.30188 * t ** 2 + 0.017998 * t ** 3) / 3600.0", "    zeta = (2306.2181 * t + 0.30188 * t ** 2 + 0.017989 * t ** 3) / 3600.0", "R02.8")
+M("C02", "era-rate", I10, "1.00273781191135448", "1.00273781191135484", "R02.8")
